@@ -1303,12 +1303,25 @@ impl Add for CelValue {
                 }
                 CelValue::TimeStamp(v1) => {
                     if let CelValue::Duration(v2) = rhs {
-                        return CelValue::from_timestamp(v1 + v2);
+                        return match v1.checked_add_signed(v2) {
+                            Some(res) => CelValue::from_timestamp(res),
+                            None => CelValue::value_error("timestamp out of range in '+'"),
+                        };
                     }
                 }
                 CelValue::Duration(v1) => match rhs {
-                    CelValue::TimeStamp(v2) => return CelValue::from_timestamp(v2 + v1),
-                    CelValue::Duration(v2) => return CelValue::Duration(v1 + v2),
+                    CelValue::TimeStamp(v2) => {
+                        return match v2.checked_add_signed(v1) {
+                            Some(res) => CelValue::from_timestamp(res),
+                            None => CelValue::value_error("timestamp out of range in '+'"),
+                        }
+                    }
+                    CelValue::Duration(v2) => {
+                        return match v1.checked_add(&v2) {
+                            Some(res) => CelValue::Duration(res),
+                            None => CelValue::value_error("duration out of range in '+'"),
+                        }
+                    }
                     _ => {}
                 },
                 _ => {}
@@ -1359,13 +1372,28 @@ impl Sub for CelValue {
                     }
                 }
                 CelValue::TimeStamp(v1) => match rhs {
-                    CelValue::Duration(v2) => return CelValue::from_timestamp(v1 - v2),
+                    CelValue::Duration(v2) => {
+                        return match v1.checked_sub_signed(v2) {
+                            Some(res) => CelValue::from_timestamp(res),
+                            None => CelValue::value_error("timestamp out of range in '-'"),
+                        }
+                    }
                     CelValue::TimeStamp(v2) => return CelValue::from_duration(v1 - v2),
                     _ => {}
                 },
                 CelValue::Duration(v1) => match rhs {
-                    CelValue::TimeStamp(v2) => return CelValue::from_timestamp(v2 - v1),
-                    CelValue::Duration(v2) => return CelValue::from_duration(v1 - v2),
+                    CelValue::TimeStamp(v2) => {
+                        return match v2.checked_sub_signed(v1) {
+                            Some(res) => CelValue::from_timestamp(res),
+                            None => CelValue::value_error("timestamp out of range in '-'"),
+                        }
+                    }
+                    CelValue::Duration(v2) => {
+                        return match v1.checked_sub(&v2) {
+                            Some(res) => CelValue::from_duration(res),
+                            None => CelValue::value_error("duration out of range in '-'"),
+                        }
+                    }
                     _ => {}
                 },
                 _ => {}
